@@ -26,6 +26,8 @@ func (o cop) String() string {
 	switch o.kind {
 	case "ReadAt":
 		return fmt.Sprintf("ReadAt(%d,2)", o.off)
+	case "ReadAt6":
+		return fmt.Sprintf("ReadAt(%d,6)", o.off)
 	case "WriteAt":
 		return fmt.Sprintf("WriteAt(%d,%q)", o.off, o.data)
 	}
@@ -52,6 +54,8 @@ func (o cop) expected() string {
 		return "ok"
 	case "ReadAt":
 		return fmt.Sprintf("n=2 %q", callsFile[o.off:o.off+2])
+	case "ReadAt6":
+		return fmt.Sprintf("n=6 %q", callsFile[o.off:o.off+6])
 	case "WriteAt":
 		return "n=2"
 	}
@@ -92,6 +96,13 @@ func (o cop) do(c *Client, f *File) (string, error) {
 			return "", err
 		}
 		return fmt.Sprintf("n=%d %q", n, b[:n]), nil
+	case "ReadAt6": // three chunks: the concurrent multi-packet path shares ids and channels with the other callers
+		b := make([]byte, 6)
+		n, err := f.ReadAt(b, int64(o.off))
+		if err != nil {
+			return "", err
+		}
+		return fmt.Sprintf("n=%d %q", n, b[:n]), nil
 	case "WriteAt":
 		n, err := f.WriteAt([]byte(o.data), int64(o.off))
 		if err != nil {
@@ -117,6 +128,8 @@ func (o cop) matches(r preq) bool {
 		return r.typ == sshFxpMkdir && r.path == o.path
 	case "ReadAt":
 		return r.typ == sshFxpRead && int(r.off) == o.off
+	case "ReadAt6":
+		return r.typ == sshFxpRead && int(r.off) == o.off+4
 	case "WriteAt":
 		return r.typ == sshFxpWrite && int(r.off) == o.off
 	}
@@ -343,6 +356,12 @@ func c03Specs(set string) []callsSpec {
 			{callers: [][]cop{{stat("/a")}, {lstat("/a")}, {mk("/ok")}}, permute: true, cut: -1},
 			{callers: [][]cop{{wa(0, "PQ")}, {wa(2, "RS")}, {wa(4, "TU")}}, permute: true, cut: -1},
 		}
+	case "mc":
+		ra6 := func(off int) cop { return cop{kind: "ReadAt6", off: off} }
+		return []callsSpec{
+			{callers: [][]cop{{stat("/a")}, {ra6(0)}}, permute: true, cut: -1},
+			{callers: [][]cop{{wa(6, "PQ"), rl("/l")}, {ra6(0)}}, permute: true, cut: -1},
+		}
 	case "3x2":
 		return []callsSpec{
 			{callers: [][]cop{{rl("/l"), ra(6)}, {wa(0, "PQ"), stat("/s")}, {ra(2), mk("/deny/y")}}, permute: true, cut: -1},
@@ -419,9 +438,9 @@ func init() {
 				return reg.Job{Part: "C03/calls", Build: "instr", Args: map[string]string{"set": set, "strategy": strat, "bound": fmt.Sprint(bound)}, Shards: 16, BudgetS: budget, Label: set + " " + strat + fmt.Sprint(bound), Optional: opt}
 			}
 			if tier == "thorough" {
-				return []reg.Job{j("2x1", "por", 0, 600, false), j("2x2", "db", 4, 900, false), j("3x1", "db", 4, 900, false), j("3x2", "db", 3, 600, false), j("2x2", "por", 0, 900, true), raceJob(tier), confJob(tier)}
+				return []reg.Job{j("2x1", "por", 0, 600, false), j("2x2", "db", 4, 900, false), j("3x1", "db", 4, 900, false), j("3x2", "db", 3, 600, false), j("mc", "db", 3, 900, false), j("2x2", "por", 0, 900, true), raceJob(tier), confJob(tier)}
 			}
-			return []reg.Job{j("2x1", "por", 0, 100, false), j("2x2", "db", 3, 100, false), j("3x1", "db", 3, 100, false), raceJob(tier), confJob(tier)}
+			return []reg.Job{j("2x1", "por", 0, 100, false), j("2x2", "db", 3, 100, false), j("3x1", "db", 3, 100, false), j("mc", "db", 2, 100, false), raceJob(tier), confJob(tier)}
 		},
 	})
 }
